@@ -50,6 +50,7 @@ func (svc *service) receiver() {
 			log.Errorf("(%s) Recovering from panic: %v", svc.cid(), r)
 		}
 
+		verifLife("rcv.exit", svc)
 		svc.wgStopped.Done()
 	}()
 
@@ -92,6 +93,7 @@ func (svc *service) sender() {
 			log.Errorf("(%s) Recovering from panic: %v", svc.cid(), r)
 		}
 
+		verifLife("snd.exit", svc)
 		svc.wgStopped.Done()
 	}()
 
